@@ -265,7 +265,7 @@ static void cmd_ser64(int nt, char **t)
 		{ const char *e = json_object_to_json_string_ext(H[h], f); if (!e || strlen(e) != tl[i] || memcmp(e, texts[i], tl[i])) lenok = 0; }
 		if (f == JSON_C_TO_STRING_SPACED) { const char *e = json_object_to_json_string(H[h]); if (!e || strlen(e) != tl[i] || memcmp(e, texts[i], tl[i])) lenok = 0; }
 		if (!(f & JSON_C_TO_STRING_COLOR)) {
-			struct json_tokener *tok = json_tokener_new_ex(128);
+			struct json_tokener *tok = json_tokener_new_ex(2000);   /* (deep enough for every tree the checks build) */
 			struct json_object *o = json_tokener_parse_ex(tok, texts[i], (int)len + 1);
 			if (json_tokener_get_error(tok) == json_tokener_success) {
 				size_t l2 = 0; const char *s2;
